@@ -123,6 +123,26 @@ def unrolled_leaves(decls):
     return max([count(("struct", n)) for n in sch.structs] or [0])
 
 
+def huge_options(decls):
+    """True when a binding carries a numeric option value beyond 10^5 (mux_count: 1000000000000): the CAN back ends take such
+    numbers for counts and positions and would enumerate them - consumers that do are left out of the history then."""
+    def big(v):
+        if isinstance(v, list):
+            return any(big(x) for x in v)
+        if isinstance(v, tuple) and v and v[0] == "num":
+            return abs(v[1]) > 10 ** 5
+        return isinstance(v, (int, float)) and not isinstance(v, bool) and abs(v) > 10 ** 5
+
+    for d in decls:
+        if d["kind"] == "impl":
+            for it in d["items"]:
+                if it[0] == "field" and big(it[2]):
+                    return True
+                if it[0] == "signal" and any(big(v) for _k, v in it[2]):
+                    return True
+    return False
+
+
 def use_tree(fcp, r, small=True):
     """History: other consumers use the SAME tree object before it is reflected (verification,
     packed layouts, every generator).  They may fail on arbitrary schemas; that is ignored - the
@@ -168,7 +188,7 @@ def check(run, decls, text, feats_sig=None, history_rng=None):
         return
     fcp = res.unwrap()
     if history_rng is not None:
-        case["used_before_reflection"] = use_tree(fcp, history_rng, small=unrolled_leaves(decls) <= 3000)
+        case["used_before_reflection"] = use_tree(fcp, history_rng, small=unrolled_leaves(decls) <= 3000 and not huge_options(decls))
         run.count("reflections_after_other_uses")
     try:
         rec = fcp.reflection()
